@@ -93,6 +93,7 @@ C14(w) ==
       nfr == NFrags(Len(c.msg))
       Relays == {n \in E \ {sender} : T.nodes[n].relay /\ LvlOf(n) \in 1..3} IN
   IF w.ret.exc # "none" THEN <<"C14.ExactlyLevel", "multicast() raised " \o w.ret.exc>>
+  ELSE IF \E i \in Idx(w.pkts) : IsFrame(w.pkts[i]) /\ HdrOf(w.pkts[i]).type = NetAckType THEN <<"C13.AckOnce", "a multicast caused a NETWORK_ACK">>
   ELSE IF \E i \in Idx(w.pkts) : w.pkts[i].want_ack THEN <<"C14.NoAckRequested", "a packet of the multicast requested a radio acknowledgement">>
   ELSE IF \E i \in Idx(w.pkts) : w.pkts[i].has_ack THEN <<"C14.NoAckSent", "a receiver acknowledged a multicast packet">>
   ELSE IF \E m \in E0 : Got(m) = 0 THEN <<"C14.ExactlyLevel", "node " \o ToString(T.nodes[CHOOSE m \in E0 : Got(m) = 0].addr) \o " of the addressed level did not receive the multicast">>
